@@ -10,14 +10,15 @@ import Upa.Impl.FilePath
   the range cannot even be written down.  Here the input is an `Array Nat` together with the valid
   range `[first, last)`; a pointer is an index (`Nat`), and EVERY element read `p[k]` goes through the
   checked accessor `rd`, which yields the explicit outcome `.oob` when the index is outside
-  `[first, last)`.  Fixed-size local arrays (`part[6]`, `number[4]`, `address[8]`, the two ICU bit
-  tables, `kCharToHexLookup[8]`) are `Loc`s whose reads and writes are checked against the declared
-  size.  The control flow follows the C++ read by read, every `if` / `&&` / `||` guard in source order.
+  `[first, last)`.  Fixed-size local arrays (`part[6]`, `number[4]`, `address[8]`) are `Loc`s whose
+  reads and writes are checked against the declared size; an index into a constant lookup table (the
+  two ICU bit tables of 16 entries, `kCharToHexLookup[8]`) is checked with `idx`.  The control flow
+  follows the C++ read by read, every `if` / `&&` / `||` guard in source order.
 
   Conventions
-  * `R α` has three outcomes: `.ok v`, `.oob` (an out-of-range access happened) and `.hang` (a loop
-    ran out of the fuel the caller supplied).  `Upa/Props/C04b.lean` proves that neither `.oob` nor
-    `.hang` is reachable.
+  * `R α` has four outcomes: `.ok v`, `.oob` (an out-of-range access happened), `.hang` (a loop ran out
+    of the fuel the caller supplied) and `.abort` (an `assert` of the source failed; there is one, in
+    compare_by_code_units).  `Upa/Props/C04b.lean` proves that none of the three failures is reachable.
   * `*(p - 1)` is read with `rdPrev` (checks `first < p`), because `p - 1` on `Nat` would silently
     truncate at 0.
   * A callee that receives a sub-range `(p, e)` of the caller's range is called as `callee a p e`
@@ -34,14 +35,16 @@ namespace Upa.Impl.B
 
 inductive R (α : Type) where
   | ok (v : α)
-  | oob
-  | hang
+  | oob      -- an access outside the valid range / outside a fixed-size array
+  | hang     -- a loop ran out of fuel
+  | abort    -- an `assert(…)` of the source failed
   deriving DecidableEq, Repr
 
 def R.bind {α β : Type} : R α → (α → R β) → R β
   | .ok v, f => f v
   | .oob, _ => .oob
   | .hang, _ => .hang
+  | .abort, _ => .abort
 
 instance : Monad R where
   pure := .ok
@@ -58,6 +61,9 @@ def rdPrev (a : Array Nat) (first last p : Nat) : R Nat :=
 /-- a callee is handed the range `[p, e)`: it must be a well-formed sub-range of `[first, last)` -/
 def sub (first last p e : Nat) : R Unit :=
   if first ≤ p ∧ p ≤ e ∧ e ≤ last then .ok () else .oob
+
+/-- `assert(c)` -/
+def chk (c : Prop) [Decidable c] : R Unit := if c then .ok () else .abort
 
 /-- index check for a constant lookup table of `n` entries -/
 def idx (n i : Nat) : R Unit := if i < n then .ok () else .oob
@@ -87,6 +93,7 @@ def iter {σ β : Type} (step : σ → R (σ ⊕ β)) : Nat → σ → R β
     | .ok (.inr b) => .ok b
     | .oob => .oob
     | .hang => .hang
+    | .abort => .abort
 
 /-- `std::char_traits<CharT>::find(p, n, ch)` / `std::find`: reads `p[0] … p[n-1]` until a hit -/
 def findCh (a : Array Nat) (first last : Nat) (ch : Nat) : Nat → Nat → R (Option Nat)
@@ -164,7 +171,7 @@ def readU8 (a : Array Nat) (first last : Nat) (slack : Nat := 0) : R (Bool × Na
   else if c ≥ 0xC2 then u8LastTrail a first last p (c &&& 0x1F)   -- [first != last]
   else pure (false, 0xFFFD, p)
 
-/-- url_utf::read_code_point(const char16_t*&, …)   (url_utf.h:203-215); precondition `first < last` -/
+/-- url_utf::read_code_point(const char16_t*&, …)   (url_utf.h:195-207); precondition `first < last` -/
 def readU16 (a : Array Nat) (first last : Nat) (slack : Nat := 0) : R (Bool × Nat × Nat) := do
   let c ← rd a first last first                     -- c = *first++            [precondition]
   let p := first + 1
@@ -229,9 +236,8 @@ def checkFixUtf8 (a : Array Nat) (first last : Nat) (slack : Nat := 0) : R (List
     pure (buff ++ (a.extract bgn ptr).toList)
   else pure (a.extract first last).toList
 
-/-- url_utf::compare_by_code_units(first1, last1, first2, last2)   (src/url_utf.cpp:70-104).
-    (The `assert(detail::u16_is_lead(cu1))` is not a memory access; it holds because the decoder
-    yields scalar values only — `C04_decode_scalar`.) -/
+/-- url_utf::compare_by_code_units(first1, last1, first2, last2)   (src/url_utf.cpp:70-104),
+    including its `assert(detail::u16_is_lead(cu1))` -/
 def compareByCodeUnits (a1 : Array Nat) (first1 last1 : Nat) (a2 : Array Nat) (first2 last2 : Nat)
     (slack : Nat := 0) : R Int :=
   iter (fun (s : Nat × Nat) => do
@@ -251,14 +257,16 @@ def compareByCodeUnits (a1 : Array Nat) (first1 last1 : Nat) (a2 : Array Nat) (f
         else
           let cu1 := if cp1 ≤ 0xFFFF then cp1 else (cp1 >>> 10) + 0xD7C0
           let cu2 := if cp2 ≤ 0xFFFF then cp2 else (cp2 >>> 10) + 0xD7C0
-          if cu1 = cu2 then pure (.inr (((cp1 &&& 0x3FF : Nat) : Int) - ((cp2 &&& 0x3FF : Nat) : Int)))
+          if cu1 = cu2 then do
+            chk (cu1 &&& 0xFFFFFC00 = 0xD800)         -- assert(detail::u16_is_lead(cu1))
+            pure (.inr (((cp1 &&& 0x3FF : Nat) : Int) - ((cp2 &&& 0x3FF : Nat) : Int)))
           else pure (.inr ((cu1 : Int) - (cu2 : Int)))
     else pure (.inr (if it1 ≠ last1 then 1 else if it2 ≠ last2 then -1 else 0)))
   (last1 - first1 + 1) (first1, first2)
 
 /-! ## 4  url_percent_encode.h  decode_hex_to_byte, append_percent_decoded -/
 
-/-- detail::decode_hex_to_byte(first, last, unescaped_value)   (url_percent_encode.h:427-441):
+/-- detail::decode_hex_to_byte(first, last, unescaped_value)   (url_percent_encode.h:428-441):
     `some (value, first + 2)` on success, `none` (first unchanged) otherwise -/
 def decodeHexToByte (a : Array Nat) (first last : Nat) (minLen : Nat := 2) : R (Option (Nat × Nat)) :=
   if last - first < minLen then pure none           -- `last - first < 2 ||`   (minLen = 2)
@@ -286,7 +294,7 @@ def pctRun (a : Array Nat) (first last : Nat) : Nat → Nat × List Nat → R (N
     | some (uc8, it) => pure (.inl (it, buff ++ [uc8]))
     | none => pure (.inl (it, buff ++ [0x25])))
 
-/-- detail::append_percent_decoded(str, output)   (url_percent_encode.h:506-547), any CharT -/
+/-- detail::append_percent_decoded(str, output)   (url_percent_encode.h:507-547), any CharT -/
 def appendPercentDecoded (e : Enc) (a : Array Nat) (first last : Nat) (back : Nat := 1) : R (List Nat) :=
   iter (fun (s : Nat × List Nat) => do
     let (it, out) := s
@@ -313,7 +321,7 @@ def appendPercentDecoded (e : Enc) (a : Array Nat) (first last : Nat) (back : Na
 
 /-! ## 5  util.h  has_xn_label -/
 
-/-- util::has_xn_label(first, last)   (util.h:172-187) -/
+/-- util::has_xn_label(first, last)   (util.h:168-181) -/
 def hasXnLabel (a : Array Nat) (first last : Nat) (minLen : Nat := 4) : R Bool :=
   if last - first ≥ minLen then                      -- if (last - first >= 4)   (minLen = 4)
     let end_ := last - 4                             -- const auto end = last - 4;
@@ -340,7 +348,7 @@ def hasXnLabel (a : Array Nat) (first last : Nat) (minLen : Nat := 4) : R Bool :
 
 /-! ## 6  url_ip.h -/
 
-/-- hostname_ends_in_a_number(first, last)   (url_ip.h:24-48) -/
+/-- hostname_ends_in_a_number(first, last)   (url_ip.h:25-48) -/
 def endsInNumber (a : Array Nat) (first last : Nat) (minLen : Nat := 2) : R Bool :=
   if first ≠ last then do                            -- if (first != last)
     let c ← rdPrev a first last last                 -- *(last - 1) == '.'   [first != last]
@@ -370,7 +378,7 @@ def endsInNumber (a : Array Nat) (first last : Nat) (minLen : Nat := 2) : R Bool
     else pure false
   else pure false
 
-/-- ipv4_parse_number(first, last, number)   (url_ip.h:57-125): `none` = error -/
+/-- ipv4_parse_number(first, last, number)   (url_ip.h:58-125): `none` = error -/
 def ipv4ParseNumber (a : Array Nat) (first last : Nat) (oneLen : Nat := 1) : R (Option Nat) :=
   if first = last then pure none else do             -- if (first == last) return error
   let c0 ← rd a first last first                     -- first[0] == '0'   [first != last]
@@ -411,7 +419,7 @@ def ipv4ParseNumber (a : Array Nat) (first last : Nat) (oneLen : Nat := 1) : R (
       | none => pure none
       | some num => if num > 0xFFFFFFFF then pure none else pure (some num)
 
-/-- ipv4_parse(first, last, ipv4)   (url_ip.h:134-209): locals `const CharT* part[6]`, `uint32_t number[4]` -/
+/-- ipv4_parse(first, last, ipv4)   (url_ip.h:135-209): locals `const CharT* part[6]`, `uint32_t number[4]` -/
 def ipv4Parse (a : Array Nat) (first last : Nat) (maxDots : Nat := 4) : R (Option Nat) :=
   if first = last then pure none else do
   let part ← (Loc.new 6).wr 0 first                  -- part[0] = first
@@ -481,7 +489,7 @@ def ipv4Parse (a : Array Nat) (first last : Nat) (maxDots : Nat := 4) : R (Optio
 /-! ## 7  url.h  Windows-drive tests, has_dot_dot_segment, is_unc_path, parse_path lambdas;
          url_search_params.h  do_parse -/
 
-/-- detail::starts_with_windows_drive(pointer, last)   (url.h:1031-1044, the `#if 1` variant):
+/-- detail::starts_with_windows_drive(pointer, last)   (url.h:1032-1045, the `#if 1` variant):
     the length test comes FIRST, `pointer[0]`, `pointer[1]` are read after it because of `&&`. -/
 def startsWithWindowsDrive (a : Array Nat) (first last : Nat) (minLen : Nat := 2) : R Bool := do
   let length := last - first
@@ -517,7 +525,7 @@ def pathnameHasWindowsDrive (a : Array Nat) (first last : Nat) (minLen : Nat := 
     else pure false
   else pure false
 
-/-- detail::is_windows_drive_absolute_path(pointer, last)   (url.h:1058-1064): `some (pointer + 3)` -/
+/-- detail::is_windows_drive_absolute_path(pointer, last)   (url.h:1059-1064): `some (pointer + 3)` -/
 def isWindowsDriveAbsolutePath (a : Array Nat) (first last : Nat) (minLen : Nat := 2) : R (Option Nat) :=
   if last - first > minLen then do                   -- last - pointer > 2 &&   (minLen = 2)
     let c0 ← rd a first last first                   -- pointer[0]   [last - pointer > 2]
@@ -528,7 +536,7 @@ def isWindowsDriveAbsolutePath (a : Array Nat) (first last : Nat) (minLen : Nat 
     else pure none
   else pure none
 
-/-- detail::has_dot_dot_segment(first, last, is_slash)   (url.h:3078-3095) -/
+/-- detail::has_dot_dot_segment(first, last, is_slash)   (url.h:3098-3114) -/
 def hasDotDotSegment (isSl : Nat → Bool) (a : Array Nat) (first last : Nat) (tailLen : Nat := 2) : R Bool :=
   if last - first ≥ 2 then                           -- if (last - first >= 2)
     let end_ := last - 1                             -- const auto* end = last - 1;
@@ -583,7 +591,7 @@ def uncBadComponent (a : Array Nat) (first last start pcend count : Nat) : R Boo
     else pure false
   else pure false
 
-/-- detail::is_unc_path(first, last)   (url.h:3031-3090): `some end_of_share_name` or `none` -/
+/-- detail::is_unc_path(first, last)   (url.h:3032-3089): `some end_of_share_name` or `none` -/
 def isUncPath (a : Array Nat) (first last : Nat) (slack : Nat := 0) : R (Option Nat) :=
   iter (fun (s : Nat × Nat × Option Nat) => do
     let (start, count, eos) := s
@@ -603,7 +611,7 @@ def isUncPath (a : Array Nat) (first last : Nat) (slack : Nat := 0) : R (Option 
       else pure (.inl (pcend + 1, count, eos)))      -- start = pcend + 1
   (last - first + 1) (first, 0, none)
 
-/-- parse_path lambda `escaped_dot(pointer)`   (url.h:2322-2325); the callers guarantee three units -/
+/-- parse_path lambda `escaped_dot(pointer)`   (url.h:2338-2341); the callers guarantee three units -/
 def escapedDot (a : Array Nat) (first last p : Nat) : R Bool := do
   let c0 ← rd a first last p                         -- pointer[0] == '%' &&
   if c0 = 0x25 then do
@@ -615,7 +623,7 @@ def escapedDot (a : Array Nat) (first last p : Nat) : R Bool := do
   else pure false
 
 /-- parse_path lambda `double_dot(pointer, len)` with `pointer = first`, `len = last - first`
-    (`len = end_of_segment - pointer`, url.h:2326-2338) -/
+    (`len = end_of_segment - pointer`, url.h:2342-2354) -/
 def doubleDot (a : Array Nat) (first last : Nat) (midLen : Nat := 4) : R Bool :=
   let len := last - first
   if len = 2 then do                                 -- case 2: pointer[0] == '.' && pointer[1] == '.'
@@ -638,7 +646,7 @@ def doubleDot (a : Array Nat) (first last : Nat) (midLen : Nat := 4) : R Bool :=
     if e then escapedDot a first last (first + 3) else pure false
   else pure false
 
-/-- parse_path lambda `single_dot(pointer, len)`   (url.h:2339-2345) -/
+/-- parse_path lambda `single_dot(pointer, len)`   (url.h:2355-2361) -/
 def singleDot (a : Array Nat) (first last : Nat) (escLen : Nat := 3) : R Bool :=
   let len := last - first
   if len = 1 then do                                 -- case 1: pointer[0] == '.'
@@ -701,7 +709,7 @@ def doParse (remQmark : Bool) (a : Array Nat) (first last : Nat) (minDist : Nat 
 
 /-! ## 6 (cont.)  url_ip.h  ipv6_parse -/
 
-/-- detail::get_hex_number<uint16_t>(pointer, last)   (url_ip.h:218-227): `(pointer', value)` -/
+/-- detail::get_hex_number<uint16_t>(pointer, last)   (url_ip.h:223-231): `(pointer', value)` -/
 def getHexNumber (a : Array Nat) (first last : Nat) : R (Nat × Nat) :=
   iter (fun (s : Nat × Nat) => do
     let (p, value) := s
@@ -721,7 +729,7 @@ inductive V6Next where
   | go (pointer : Nat)    -- address[piece_index++] = value, next iteration at `pointer`
   deriving DecidableEq, Repr
 
-/-- `if (pointer != last) { const CharT ch = *pointer; … }` inside the main loop (url_ip.h:299-322) -/
+/-- `if (pointer != last) { const CharT ch = *pointer; … }` inside the main loop (url_ip.h:297-320) -/
 def v6AfterHex (a : Array Nat) (first last pointer0 pointer : Nat) : R V6Next :=
   if pointer ≠ last then do                          -- if (pointer != last)
     let ch ← rd a first last pointer                 -- ch = *pointer   [pointer != last]
@@ -736,7 +744,7 @@ def v6AfterHex (a : Array Nat) (first last pointer0 pointer : Nat) : R V6Next :=
 /-- state of the main loop: pointer, piece_index, compress, address[8] -/
 abbrev V6Main := Nat × Nat × Nat × Loc
 
-/-- main `while (pointer < last)` loop (url_ip.h:277-324); result `none` = error,
+/-- main `while (pointer < last)` loop (url_ip.h:278-322); result `none` = error,
     `some (st, is_ipv4)` -/
 def v6MainLoop (a : Array Nat) (first last maxPieces : Nat) : Nat → V6Main → R (Option (V6Main × Bool)) :=
   iter (fun (s : V6Main) => do
@@ -775,7 +783,7 @@ def v6Digits (a : Array Nat) (first last : Nat) : Nat → Nat × Nat → R (Opti
 /-- state of the IPv4 tail: pointer, numbers_seen, piece_index, address -/
 abbrev V6V4 := Nat × Nat × Nat × Loc
 
-/-- `while (pointer < last)` of the `if (is_ipv4)` block (url_ip.h:333-365) -/
+/-- `while (pointer < last)` of the `if (is_ipv4)` block (url_ip.h:331-363) -/
 def v6V4Loop (a : Array Nat) (first last : Nat) : Nat → V6V4 → R (Option V6V4) :=
   iter (fun (s : V6V4) => do
     let (pointer, numbersSeen, pieceIndex, address) := s
@@ -813,7 +821,7 @@ def v6Shift (diff compress : Nat) : Nat → Nat × Loc → R Loc :=
       pure (.inl (ind - 1, address))
     else pure (.inr address))
 
-/-- ipv6_parse(first, last, address)   (url_ip.h:241-384): `some address` (eight pieces) or `none` -/
+/-- ipv6_parse(first, last, address)   (url_ip.h:242-384): `some address` (eight pieces) or `none` -/
 def ipv6Parse (a : Array Nat) (first last : Nat) (maxPieces : Nat := 8) : R (Option (List Nat)) :=
   let address := Loc.new 8                           -- uint16_t(&address)[8], std::fill(…, 0)
   let len := last - first
